@@ -660,7 +660,8 @@ impl World {
             }
             Event::Noise { data, form } => {
                 self.cx.stat("fault:noise");
-                self.deliver_data(data, *form, "noise");
+                // noise stays around as a frame that streams, lists and suffix sweeps can pick up
+                self.push_msg(data.clone(), *form, "noise".into(), true);
             }
             Event::Persist { node, form, sync } => {
                 if let Some(n) = self.node(*node) {
